@@ -2,5 +2,6 @@
 EXTENDS BrokerAbs
 C(cat, tps) == [on |-> FALSE, q |-> 1, cat |-> cat, topics |-> tps]
 MCConsCfgs == { <<C("n", {}), C("x", {})>>, <<C("n", {1}), C("n", {})>>, <<C("n", {}), C("d", {})>> }
+MCConsCfgsQuick == { <<C("n", {}), C("x", {})>>, <<C("n", {}), C("n", {})>> }
 MCConsCfgsAll == [Consumers -> [on : {FALSE}, q : {1}, cat : Cats, topics : SUBSET Topics]]
 ====
